@@ -128,9 +128,13 @@ def step (s : St) (toks : List String) : St × String :=
   | ["offer", vn, n] =>
     match findV vn, find n with
     | some v, some t =>
+      -- the world model itself: the offer is event (i, t) of `runWorld` on the list of all views
       let k := gatherKind (K.at v.key) (v.genesis K) v.tree t
-      let v' := v.offer K t
-      (setV vn v', showKind k ++ " " ++ showState (K.at v.key) v'.tree)
+      let i := (s.views.findIdx? (fun e => e.1 == vn)).getD 0
+      let w := runWorld K (s.views.map (·.2)) [(i, t)]
+      let views' := (s.views.zip w).map (fun e => (e.1.1, e.2))
+      let v' := (w[i]?).getD v
+      ({ s with views := views' }, showKind k ++ " " ++ showState (K.at v.key) v'.tree)
     | _, _ => bad
   | ["vverify", vn, n, d] =>
     match findV vn, find n, depth? d with
